@@ -178,6 +178,17 @@ int main (int argc, char **argv)
               while (*p == ' ') p++;
               P = mps_parse_inline_poly_from_string (ctx, p);
             }
+          else if (kind == 'f')
+            {
+              /* .pol text through mps_parse_string; "\n" in the script stands for a newline */
+              char *q, *w;
+              while (*p == ' ') p++;
+              for (q = w = p; *q; q++)
+                if (q[0] == '\\' && q[1] == 'n') { *w++ = '\n'; q++; }
+                else *w++ = *q;
+              *w = 0;
+              P = mps_parse_string (ctx, p);
+            }
           if (P)
             {
               keep (P);
@@ -239,6 +250,8 @@ int main (int argc, char **argv)
           free_polys ();
           mps_context_free (c);
           ctx = NULL;
+          /* the pool's worker threads end asynchronously: give them time before counting */
+          { int k; for (k = 0; k < 2000 && n_threads_now () > 1; k++) usleep (500); }
         }
       else note = "unknown";
 
